@@ -201,6 +201,7 @@ type Obligation struct {
 	Clause    *Clause
 	Snap      *replaySnap
 	Entry     string
+	Seq       bool // byte strings are SMT sequences in this query (layout proofs)
 	// results
 	Result string // "unsat"(discharged) | "sat" | "unknown" | "folded"
 	Solver string
